@@ -204,6 +204,8 @@ func VerifC11_OpenFile() {
 	verifrt.Assume(size < 1<<40)
 	verifrt.Assume(size%2048 == 0)
 	img := &verifstub.File{Label: "img", Size: size}
+	isDir := verifrt.Bool("target-is-directory") // a directory may be named like an image
+	img.Dir = isDir
 	// bound: region tables of at most C11.maxregions plain regions (larger tables only repeat the per-region checks of C10)
 	verifrt.Assume(verifBE32("img", 0) <= uint32(verifrt.Bound("C11.maxregions", 2, 3)))
 	hasA, hasB := verifrt.Bool("adjacentkey"), verifrt.Bool("redkey")
@@ -234,6 +236,12 @@ func VerifC11_OpenFile() {
 		if strings.HasSuffix(e.Path, ".dkey") {
 			keyLookups++
 		}
+	}
+	if isDir && !writeOpen {
+		// directories are never wrapped, whatever their name and whatever key files lie around
+		_, raw := f.(*verifstub.File)
+		verifrt.Assert(err == nil && raw, "open.directory-passthrough")
+		return
 	}
 	if writeOpen {
 		// passed through untouched: the base handle itself, no key lookup, no probing reads
@@ -296,7 +304,7 @@ func VerifC11_OpenFile() {
 // C13 (data half): a key file that is delivered in pieces (short reads) or fails still yields the
 // right key or an error - never a wrong key, which would silently serve wrong plaintext.
 func VerifC13_KeyFile() {
-	f := &verifstub.File{Data: []byte(verifKeyAHex), Size: 32, ShortBudget: verifrt.Bound("C13.keyfile.shortreads", 1, 2), Faults: verifrt.Bool("faults"), L: &verifstub.Ledger{}}
+	f := &verifstub.File{Data: []byte(verifKeyAHex), Size: 32, ShortBudget: verifrt.Bound("C13.keyfile.shortreads", 1, 1), Faults: verifrt.Bool("faults"), L: &verifstub.Ledger{}}
 	key, err := ReadKeyFile(f)
 	if err != nil {
 		verifrt.Assert(f.Faults, "keyfile.error-only-with-fault")
